@@ -1,8 +1,12 @@
 /-
-C04 — loading applies the documented coercions, and only those (default engine part).
+C04 — loading applies the documented coercions, and only those: default engine, v1 engine (`C04_v1_*`)
+and EnvWizard (`C04_env_*`).
 -/
 import DW.Generated.Tables
 import DW.Model.Load
+import DW.Model.LoadV1
+import DW.Model.EnvLoad
+import DW.Lemmas.C04
 
 namespace DW.Props.C04
 open DW
@@ -101,5 +105,408 @@ theorem C04_nesting_list (std : Std) (cfg : Option MetaCfg) (k : SeqKind) (t : T
 theorem C04_nesting_optional (std : Std) (cfg : Option MetaCfg) (t : Ty) (o : JVal) (h : o.kind ≠ .null) :
     loadD std cfg (.optional t) o = loadD std cfg t o := by
   cases o <;> simp [loadD, JVal.kind] at h ⊢
+
+/-! ## v1 engine -/
+
+open DW.Lemmas.C04
+
+/-- v1 `str`: `None` becomes `''` (the template `'' if v is None else str(v)`), a string is unchanged. -/
+theorem C04_v1_str (std : Std) (cfg : Option MetaCfg) (s : S) :
+    loadV1 std cfg .str .null = .ok (.str []) ∧ loadV1 std cfg .str (.str s) = .ok (.str s) := by
+  simp [loadV1, v1Str, asStr, pure, Except.pure]
+
+/-- v1 `bool` from a string: case-insensitive membership in the same truthy table as the default engine. -/
+theorem C04_v1_bool_of_str (std : Std) (cfg : Option MetaCfg) (s : S) :
+    loadV1 std cfg .bool (.str s) = .ok (.bool (Generated.truthyValues.contains (String.ofList (Str.lowerS s)))) := by
+  simp [loadV1, v1Bool, isTruthyStr, pure, Except.pure]
+
+/-- v1 `bool` from a number: `== 1`. -/
+theorem C04_v1_bool_of_int (std : Std) (cfg : Option MetaCfg) (i : Int) :
+    loadV1 std cfg .bool (.int i) = .ok (.bool (i == 1)) := by
+  simp [loadV1, v1Bool, pure, Except.pure]
+
+/-- v1 `int`: a float with a fractional part is rejected, an integral one is converted exactly
+(README "What's New in v1.0": Float to Int Conversion Change). -/
+theorem C04_v1_int_of_float (std : Std) (cfg : Option MetaCfg) (neg : Bool) (m : Nat) (e : Int) (r : S) :
+    loadV1 std cfg .int (.float (.fin neg m e r)) =
+      (if PyFloat.finIsInteger m e then .ok (.int (PyFloat.sign neg (PyFloat.finTrunc m e))) else .error (.parse none none)) := by
+  simp only [loadV1, v1Int, PyFloat.isInteger, PyFloat.toInt, perr, pure, Except.pure]
+  split <;> simp [*]
+
+/-- v1 `int` from a float string (a string containing '.'): `float(s)` must be integral. -/
+theorem C04_v1_int_of_float_str (std : Std) (cfg : Option MetaCfg) (s : S) (f : PyFloat)
+    (hdot : s.contains '.' = true) (hf : std.floatOfStr s = some f) (hfrac : f.isInteger = false) :
+    loadV1 std cfg .int (.str s) = .error (.parse none none) := by
+  have hmem : '.' ∈ s := by simpa using hdot
+  simp [loadV1, v1Int, hmem, hf, hfrac, perr]
+
+/-- v1 `int`: `None`, `''` and a bool are rejected (not coerced to 0 / 1). -/
+theorem C04_v1_int_rejects (std : Std) (cfg : Option MetaCfg) (b : Bool) :
+    loadV1 std cfg .int .null = .error (.parse none none) ∧
+    loadV1 std cfg .int (.str []) = .error (.parse none none) ∧
+    loadV1 std cfg .int (.bool b) = .error (.parse none none) := by
+  refine ⟨?_, ?_, ?_⟩
+  · simp [loadV1, v1Int, perr]
+  · simp only [loadV1, v1Int, perr]
+    have : ObjPath.pyIntOfStr [] = none := by decide
+    simp [this]
+  · simp [loadV1, v1Int, perr]
+
+/-- v1 containers convert element-wise with the element type's own loader — for every element type. -/
+theorem C04_v1_list_elementwise (std : Std) (cfg : Option MetaCfg) (k : SeqKind) (t : Ty) (xs : List JVal) :
+    loadV1 std cfg (.seq k t) (.list xs) =
+      (mapME (fun x => loadV1 std cfg t x) xs >>= fun ys => (mkSeq k ys).mapError v1Wrap) := by
+  simp [loadV1, jIter]
+
+theorem C04_v1_vtuple_elementwise (std : Std) (cfg : Option MetaCfg) (t : Ty) (xs : List JVal) :
+    loadV1 std cfg (.vtuple t) (.list xs) = (mapME (fun x => loadV1 std cfg t x) xs >>= fun ys => pure (.tuple ys)) := by
+  simp [loadV1, jIter]
+
+theorem C04_v1_dict_elementwise (std : Std) (cfg : Option MetaCfg) (mk : MapKind) (kt vt : Ty) (kvs : List (S × JVal)) :
+    loadV1 std cfg (.map mk kt vt) (.dict kvs) =
+      (mapME (fun (kv : S × JVal) => do
+          let k' ← loadV1 std cfg kt (.str kv.1)
+          let v' ← loadV1 std cfg vt kv.2
+          pure (k', v')) kvs >>= fun ps => (mkMap mk ps).mapError v1Wrap) := by
+  simp [loadV1]
+
+/-- a list loads to a list exactly when every element loads, position by position, with the *same* function
+`loadV1 t` (induction over the value list through `mapME`). -/
+theorem C04_v1_list_pointwise (std : Std) (cfg : Option MetaCfg) (t : Ty) (xs : List JVal) (ys : List PyVal) :
+    loadV1 std cfg (.seq .list t) (.list xs) = .ok (.seq .list ys) ↔
+      Pointwise (fun x y => loadV1 std cfg t x = .ok y) xs ys := by
+  rw [C04_v1_list_elementwise, ← mapME_ok_iff]
+  cases h : mapME (fun x => loadV1 std cfg t x) xs with
+  | error e => simp [bind, Except.bind]
+  | ok r => simp [bind, Except.bind, mkSeq, pure, Except.pure, Except.mapError]
+
+/-- `Optional[T]` is transparent for every non-null value: the wrapped type's own loader runs
+(no flag travels from the Optional into the positions below it). -/
+theorem C04_v1_optional (std : Std) (cfg : Option MetaCfg) (t : Ty) (o : JVal) (h : o.kind ≠ .null) :
+    loadV1 std cfg (.optional t) o = loadV1 std cfg t o := by
+  cases o <;> simp [loadV1, JVal.kind] at h ⊢
+
+/-- POSITION INDEPENDENCE (v1): through any stack of list / set / deque / variadic-tuple / dict-value / Optional
+layers the value at the leaf is converted by `loadV1 t` — the same function as at the bare position — and the
+result is only re-wrapped by the layers.  Induction over the context. -/
+theorem C04_v1_nesting (std : Std) (cfg : Option MetaCfg) (t : Ty) (v : JVal) (ls : List Layer) (h : optOk ls v = true) :
+    loadV1 std cfg (wrapTys ls t) (wrapDocs ls v) = liftsV1 ls (loadV1 std cfg t v) := by
+  induction ls with
+  | nil => rfl
+  | cons l ls ih =>
+    cases l with
+    | seq k =>
+      have := ih (by simpa [optOk] using h)
+      simp only [wrapTys, wrapDocs, Layer.wrapTy, Layer.wrapDoc, liftsV1, Layer.liftV1]
+      rw [C04_v1_list_elementwise, mapME_singleton, this]
+      cases liftsV1 ls (loadV1 std cfg t v) <;> simp [bind, Except.bind, pure, Except.pure]
+    | vtuple =>
+      have := ih (by simpa [optOk] using h)
+      simp only [wrapTys, wrapDocs, Layer.wrapTy, Layer.wrapDoc, liftsV1, Layer.liftV1]
+      rw [C04_v1_vtuple_elementwise, mapME_singleton, this]
+      cases liftsV1 ls (loadV1 std cfg t v) <;> simp [bind, Except.bind, pure, Except.pure]
+    | mapVal mk key =>
+      have := ih (by simpa [optOk] using h)
+      simp only [wrapTys, wrapDocs, Layer.wrapTy, Layer.wrapDoc, liftsV1, Layer.liftV1]
+      rw [C04_v1_dict_elementwise, mapME_singleton]
+      simp only [this]
+      have hk : loadV1 std cfg .str (.str key) = .ok (.str key) := (C04_v1_str std cfg key).2
+      simp only [hk]
+      cases liftsV1 ls (loadV1 std cfg t v) <;> simp [bind, Except.bind, pure, Except.pure]
+    | opt =>
+      simp only [optOk, Bool.and_eq_true, bne_iff_ne, ne_eq] at h
+      have := ih h.2
+      simp only [wrapTys, wrapDocs, Layer.wrapTy, Layer.wrapDoc, liftsV1, Layer.liftV1]
+      rw [C04_v1_optional std cfg _ _ h.1, this]
+
+/-- in particular: a `None` at a `str` position nested inside an `Optional[...]`-wrapped container loads as `''`,
+exactly like at a `str` position outside it (`Optional[list[str]]`, `Optional[dict[str, str]]`,
+`Optional[list[list[str]]]`, …: any stack whose innermost layer is a container). -/
+theorem C04_v1_str_none_nested (std : Std) (cfg : Option MetaCfg) (ls : List Layer) (h : optOk ls .null = true) :
+    loadV1 std cfg (wrapTys ls .str) (wrapDocs ls .null) = liftsV1 ls (.ok (.str [])) := by
+  rw [C04_v1_nesting std cfg .str .null ls h, (C04_v1_str std cfg []).1]
+
+/-- the instance the mutation demo uses: `Optional[List[str]]` with `[None, …]`. -/
+theorem C04_v1_optional_list_str_none (std : Std) (cfg : Option MetaCfg) :
+    loadV1 std cfg (.optional (.seq .list .str)) (.list [.null]) = .ok (.seq .list [.str []]) := by
+  have := C04_v1_str_none_nested std cfg [.opt, .seq .list] (by decide)
+  simpa [wrapTys, wrapDocs, Layer.wrapTy, Layer.wrapDoc, liftsV1, Layer.liftV1, mkSeq, bind, Except.bind, pure,
+    Except.pure, Except.mapError] using this
+
+/-- fixed-length tuple (v1): member `k` of the value is converted by the loader of member type `k` — the values
+before position `k` play no role (induction over the member types). -/
+theorem C04_v1_tuple_elementwise (std : Std) (cfg : Option MetaCfg) (ts : List Ty) (pre xs : List JVal)
+    (h : xs.length = ts.length) :
+    v1Tuple std cfg ts pre.length (.list (pre ++ xs)) =
+      mapME (fun (p : Ty × JVal) => loadV1 std cfg p.1 p.2) (ts.zip xs) := by
+  induction ts generalizing pre xs with
+  | nil => simp [v1Tuple, mapME]
+  | cons t ts ih =>
+    cases xs with
+    | nil => simp at h
+    | cons x xs =>
+      have hlen : xs.length = ts.length := by simpa using h
+      have hidx : jIndex (.list (pre ++ x :: xs)) pre.length = some x := by simp [jIndex]
+      have hrec := ih (pre ++ [x]) xs hlen
+      simp only [List.length_append, List.length_singleton, List.append_assoc, List.singleton_append] at hrec
+      simp only [v1Tuple, hidx, List.zip_cons_cons, mapME, hrec]
+
+/-- `tuple[T1, T2]` (v1): each member by its own loader. -/
+theorem C04_v1_tuple_pair (std : Std) (cfg : Option MetaCfg) (t1 t2 : Ty) (x1 x2 : JVal) :
+    loadV1 std cfg (.tuple [t1, t2]) (.list [x1, x2]) =
+      (do let y1 ← loadV1 std cfg t1 x1
+          let y2 ← loadV1 std cfg t2 x2
+          pure (.tuple [y1, y2])) := by
+  have := C04_v1_tuple_elementwise std cfg [t1, t2] [] [x1, x2] rfl
+  simp only [List.length_nil, List.nil_append] at this
+  simp only [loadV1, List.isEmpty_cons, Bool.false_eq_true, if_false, this, List.zip_cons_cons, List.zip_nil_right, mapME]
+  cases loadV1 std cfg t1 x1 <;> simp [bind, Except.bind, pure, Except.pure]
+  cases loadV1 std cfg t2 x2 <;> simp
+
+/-- TypedDict member (v1): the value under a required key is converted by that key's loader. -/
+theorem C04_v1_typeddict_member (std : Std) (cfg : Option MetaCfg) (name k : S) (t : Ty) (v : JVal) :
+    loadV1 std cfg (.typeddict name [(k, t, true)]) (.dict [(k, v)]) =
+      (loadV1 std cfg t v >>= fun y => pure (.map .dict [(.str k, y)])) := by
+  simp [loadV1, v1Td, bind, Except.bind, pure, Except.pure]
+  cases loadV1 std cfg t v <;> simp
+
+/-- NamedTuple member (v1): field `i` of the class is converted from element `i` by the field's loader. -/
+theorem C04_v1_namedtuple_member (std : Std) (cfg : Option MetaCfg) (name a b : S) (t : Ty) (s : S) (v : JVal) :
+    loadV1 std cfg (.ntuple name [(a, .str, none), (b, t, none)]) (.list [.str s, v]) =
+      (loadV1 std cfg t v >>= fun y => pure (.ntuple name [a, b] [.str s, y])) := by
+  simp [loadV1, jLen, v1NtSeq, jIndex, v1Str, asStr, bind, Except.bind, pure, Except.pure]
+  cases loadV1 std cfg t v <;> simp
+
+/-! ## EnvWizard (`EnvLoader`) -/
+
+/-- `bool` from an environment string follows the truthy table (case-insensitive), like the default engine. -/
+theorem C04_env_bool_of_str (std : Std) (js : S → Option JVal) (cfg : Option MetaCfg) (s : S) :
+    loadE std js cfg .bool (.str s) = .ok (.bool (Generated.truthyValues.contains (String.ofList (Str.lowerS s)))) := by
+  simp [loadE, asBool, isTruthyStr, pure, Except.pure]
+
+/-- ORDER OF THE DECISION for `datetime`, for ALL strings: the numeric-form test comes first.  A string in numeric
+form is an epoch timestamp (UTC) … -/
+theorem C04_env_datetime_numeric (std : Std) (s : S) (h : looksNumeric s = true) :
+    envDatetime std (.str s) =
+      (match std.floatOfStr s with
+       | none => .error (.raw "ValueError".toList)
+       | some f => match std.datetimeFromTsUtc (.float f) with
+         | some t => .ok (.leaf .datetime false t)
+         | none => .error (.raw "OverflowError".toList)) := by
+  simp only [envDatetime, h, if_true, rawE, pure, Except.pure]
+  cases std.floatOfStr s with
+  | none => rfl
+  | some f => cases std.datetimeFromTsUtc (.float f) <;> rfl
+
+/-- … whatever `fromisoformat` would make of it: the ISO parser is never consulted for a numeric string
+(so `'20240101'` can never load as the compact ISO date 2024-01-01). -/
+theorem C04_env_datetime_numeric_ignores_iso (std : Std) (iso : S → Option S) (s : S) (h : looksNumeric s = true) :
+    envDatetime { std with datetimeFromIso := iso } (.str s) = envDatetime std (.str s) := by
+  simp only [envDatetime, h, if_true]
+
+/-- … and every other string goes to `fromisoformat` after the `Z` rewrite; the timestamp branch is never consulted. -/
+theorem C04_env_datetime_iso (std : Std) (s : S) (h : looksNumeric s = false) :
+    envDatetime std (.str s) =
+      (match std.datetimeFromIso (zToOffset s) with
+       | some t => .ok (.leaf .datetime false t)
+       | none => .error (.raw "ValueError".toList)) := by
+  simp only [envDatetime, h, rawE, pure, Except.pure]
+  cases std.datetimeFromIso (zToOffset s) <;> rfl
+
+/-- the same order for `date`. -/
+theorem C04_env_date_numeric (std : Std) (s : S) (h : looksNumeric s = true) :
+    envDate std (.str s) =
+      (match std.floatOfStr s with
+       | none => .error (.raw "ValueError".toList)
+       | some f => match std.dateFromTs (.float f) with
+         | some t => .ok (.leaf .date false t)
+         | none => .error (.raw "OverflowError".toList)) := by
+  simp only [envDate, h, if_true, rawE, pure, Except.pure]
+  cases std.floatOfStr s with
+  | none => rfl
+  | some f => cases std.dateFromTs (.float f) <;> rfl
+
+theorem C04_env_date_numeric_ignores_iso (std : Std) (iso : S → Option S) (s : S) (h : looksNumeric s = true) :
+    envDate { std with dateFromIso := iso } (.str s) = envDate std (.str s) := by
+  simp only [envDate, h, if_true]
+
+theorem C04_env_date_iso (std : Std) (s : S) (h : looksNumeric s = false) :
+    envDate std (.str s) =
+      (match std.dateFromIso s with
+       | some t => .ok (.leaf .date false t)
+       | none => .error (.raw "ValueError".toList)) := by
+  simp only [envDate, h, rawE, pure, Except.pure]
+  cases std.dateFromIso s <;> rfl
+
+/-- what "numeric form" is: a non-empty run of digits … -/
+theorem C04_env_numeric_digits (s : S) (hne : s ≠ []) (hd : s.all Str.isDig = true) : looksNumeric s = true := by
+  have := replaceFirst_dot_noDot s (noDot_of_allDigits s hd)
+  simp [looksNumeric, this, hd, hne]
+
+/-- … or digits with exactly one point somewhere (at least one digit overall) … -/
+theorem C04_env_numeric_point (a b : S) (ha : a.all Str.isDig = true) (hb : b.all Str.isDig = true) (hne : a ++ b ≠ []) :
+    looksNumeric (a ++ '.' :: b) = true := by
+  have := replaceFirst_dot_at a b (noDot_of_allDigits a ha)
+  simp only [looksNumeric, this]
+  simp [List.all_append, ha, hb]
+  simpa using hne
+
+/-- … and nothing carrying a sign, an exponent or a blank. -/
+theorem C04_env_numeric_rejects (c : Char) (a b : S) (hc : Str.isDig c = false) (hdot : c ≠ '.') :
+    looksNumeric (a ++ c :: b) = false := by
+  simp only [looksNumeric]
+  have hmem : ∀ (s : S), c ∈ s → c ∈ replaceFirst ['.'] [] s := by
+    intro s
+    induction s with
+    | nil => intro h; cases h
+    | cons d r ih =>
+      intro h
+      by_cases hd : d = '.'
+      · subst hd
+        have : c ∈ r := by
+          cases h with
+          | head => exact absurd rfl hdot
+          | tail _ h' => exact h'
+        simpa [replaceFirst, List.isPrefixOf] using this
+      · have hd' : ('.' == d) = false := by
+          simp only [beq_eq_false_iff_ne, ne_eq]; exact fun e => hd e.symm
+        simp only [replaceFirst, List.isPrefixOf, hd', Bool.false_and]
+        cases h with
+        | head => simp
+        | tail _ h' => simp [ih h']
+  have hin : c ∈ replaceFirst ['.'] [] (a ++ c :: b) := hmem _ (by simp)
+  have : (replaceFirst ['.'] [] (a ++ c :: b)).all Str.isDig = false := by
+    rw [Bool.eq_false_iff]
+    intro hall
+    have := (List.all_eq_true.1 hall) c hin
+    simp [hc] at this
+  simp [this]
+
+/-- `'20240101'` is in numeric form, hence an epoch timestamp for every `Std` (whatever `fromisoformat` accepts). -/
+theorem C04_env_compact_date_is_epoch (std : Std) (iso : S → Option S) :
+    envDate { std with dateFromIso := iso } (.str "20240101".toList) = envDate std (.str "20240101".toList) ∧
+    envDatetime { std with datetimeFromIso := iso } (.str "20240101".toList) = envDatetime std (.str "20240101".toList) :=
+  ⟨C04_env_date_numeric_ignores_iso std iso _ (by decide), C04_env_datetime_numeric_ignores_iso std iso _ (by decide)⟩
+
+/-- SPLITTING, shorthand form: a string that does not look like JSON is split on commas, every item is stripped,
+and each item is converted by the element type's own loader (split, then element-wise coercion). -/
+theorem C04_env_list_shorthand (std : Std) (js : S → Option JVal) (cfg : Option MetaCfg) (k : SeqKind) (t : Ty) (s : S)
+    (h : looksJson '[' s = false) :
+    loadE std js cfg (.seq k t) (.str s) =
+      (mapME (fun x => loadE std js cfg t (.str x)) (commaItems s) >>= mkSeq k) := by
+  simp [loadE, envAsList, h, jIter, mapME_map, bind, Except.bind, pure, Except.pure]
+
+/-- JSON form: the parsed list is converted element-wise by the same loader. -/
+theorem C04_env_list_json (std : Std) (js : S → Option JVal) (cfg : Option MetaCfg) (k : SeqKind) (t : Ty) (s : S)
+    (xs : List JVal) (h : looksJson '[' s = true) (hj : js s = some (.list xs)) :
+    loadE std js cfg (.seq k t) (.str s) = (mapME (fun x => loadE std js cfg t x) xs >>= mkSeq k) := by
+  simp [loadE, envAsList, h, hj, jIter, bind, Except.bind, pure, Except.pure]
+
+/-- an already parsed list (a value nested in a JSON form) is converted element-wise by the same loader. -/
+theorem C04_env_list_elementwise (std : Std) (js : S → Option JVal) (cfg : Option MetaCfg) (k : SeqKind) (t : Ty)
+    (xs : List JVal) :
+    loadE std js cfg (.seq k t) (.list xs) = (mapME (fun x => loadE std js cfg t x) xs >>= mkSeq k) := by
+  simp [loadE, envAsList, jIter, bind, Except.bind, pure, Except.pure]
+
+theorem C04_env_dict_elementwise (std : Std) (js : S → Option JVal) (cfg : Option MetaCfg) (mk : MapKind) (kt vt : Ty)
+    (kvs : List (S × JVal)) :
+    loadE std js cfg (.map mk kt vt) (.dict kvs) =
+      (mapME (fun (kv : S × JVal) => do
+          let k' ← loadE std js cfg kt (.str kv.1)
+          let v' ← loadE std js cfg vt kv.2
+          pure (k', v')) kvs >>= mkMap mk) := by
+  simp [loadE, envAsDict, bind, Except.bind, pure, Except.pure]
+
+/-- joining comma-free items and splitting gives the items back (induction over the item list) … -/
+theorem C04_env_split_join (items : List S) (hne : items ≠ []) (h : ∀ x ∈ items, ',' ∉ x) :
+    splitOn ',' (joinSep ',' items) = items :=
+  splitOn_joinSep ',' items hne h
+
+/-- … and joining the pieces of ANY string gives the string back: splitting loses nothing. -/
+theorem C04_env_join_split (s : S) : joinSep ',' (splitOn ',' s) = s := joinSep_splitOn ',' s
+
+/-- hence: the comma-joined form of comma-free, already stripped items loads as the list of the items' own
+conversions — the same function `loadE t` as at a bare field. -/
+theorem C04_env_list_of_items (std : Std) (js : S → Option JVal) (cfg : Option MetaCfg) (t : Ty) (items : List S)
+    (hne : items ≠ []) (hc : ∀ x ∈ items, ',' ∉ x) (hs : ∀ x ∈ items, pyStrip x = x)
+    (hj : looksJson '[' (joinSep ',' items) = false) :
+    loadE std js cfg (.seq .list t) (.str (joinSep ',' items)) =
+      (mapME (fun x => loadE std js cfg t (.str x)) items >>= fun ys => pure (.seq .list ys)) := by
+  rw [C04_env_list_shorthand std js cfg .list t _ hj]
+  have : commaItems (joinSep ',' items) = items := by
+    simp only [commaItems, splitOn_joinSep ',' items hne hc]
+    have hmap : ∀ (l : List S), (∀ x ∈ l, pyStrip x = x) → l.map pyStrip = l := by
+      intro l hl
+      induction l with
+      | nil => rfl
+      | cons a r ih => simp [hl a (by simp), ih (fun x hx => hl x (by simp [hx]))]
+    exact hmap items hs
+  rw [this]
+  cases mapME (fun x => loadE std js cfg t (.str x)) items <;> simp [bind, Except.bind, mkSeq]
+
+/-- `k=v` shorthand: one pair without a comma loads as the one-entry dict of the stripped key and the stripped value,
+each converted by its own loader. -/
+theorem C04_env_dict_pair (std : Std) (js : S → Option JVal) (cfg : Option MetaCfg) (mk : MapKind) (kt vt : Ty) (k v : S)
+    (hk : '=' ∉ k) (hc : ',' ∉ k ++ '=' :: v) (hj : looksJson '{' (k ++ '=' :: v) = false) :
+    loadE std js cfg (.map mk kt vt) (.str (k ++ '=' :: v)) =
+      (do let k' ← loadE std js cfg kt (.str (pyStrip k))
+          let v' ← loadE std js cfg vt (.str (pyStrip v))
+          mkMap mk [(k', v')]) := by
+  have hsp := splitOn_noSep ',' _ hc
+  have hp := partitionAt_append_sep '=' k v hk
+  simp only [loadE, envAsDict, hj, hsp, kvPairs, hp, jDictOf, List.foldl, jDictInsert]
+  simp [bind, Except.bind, pure, Except.pure, mapME]
+  cases loadE std js cfg kt (.str (pyStrip k)) <;> simp
+  cases loadE std js cfg vt (.str (pyStrip v)) <;> simp
+
+theorem C04_env_optional (std : Std) (js : S → Option JVal) (cfg : Option MetaCfg) (t : Ty) (o : JVal) (h : o.kind ≠ .null) :
+    loadE std js cfg (.optional t) o = loadE std js cfg t o := by
+  cases o <;> simp [loadE, JVal.kind] at h ⊢
+
+/-- POSITION INDEPENDENCE (EnvWizard, inside a JSON form): through any stack of list / set / dict-value / Optional
+layers the leaf value is converted by `loadE t`, the function used for a bare field. -/
+theorem C04_env_nesting (std : Std) (js : S → Option JVal) (cfg : Option MetaCfg) (t : Ty) (v : JVal) (ls : List Layer)
+    (hv : ∀ l ∈ ls, match l with | .vtuple => False | _ => True) (h : optOk ls v = true) :
+    loadE std js cfg (wrapTys ls t) (wrapDocs ls v) = liftsE ls (loadE std js cfg t v) := by
+  induction ls with
+  | nil => rfl
+  | cons l ls ih =>
+    have hv' : ∀ l ∈ ls, match l with | .vtuple => False | _ => True := fun a ha => hv a (by simp [ha])
+    cases l with
+    | seq k =>
+      have := ih hv' (by simpa [optOk] using h)
+      simp only [wrapTys, wrapDocs, Layer.wrapTy, Layer.wrapDoc, liftsE, Layer.liftE]
+      rw [C04_env_list_elementwise, mapME_singleton, this]
+      cases liftsE ls (loadE std js cfg t v) <;> simp [bind, Except.bind, pure, Except.pure]
+    | vtuple => exact absurd (hv .vtuple (by simp)) (by simp)
+    | mapVal mk key =>
+      have := ih hv' (by simpa [optOk] using h)
+      simp only [wrapTys, wrapDocs, Layer.wrapTy, Layer.wrapDoc, liftsE, Layer.liftE]
+      rw [C04_env_dict_elementwise, mapME_singleton]
+      simp only [this]
+      have hk : loadE std js cfg .str (.str key) = .ok (.str key) := by simp [loadE, asStr, pure, Except.pure]
+      simp only [hk]
+      cases liftsE ls (loadE std js cfg t v) <;> simp [bind, Except.bind, pure, Except.pure]
+    | opt =>
+      simp only [optOk, Bool.and_eq_true, bne_iff_ne, ne_eq] at h
+      have := ih hv' h.2
+      simp only [wrapTys, wrapDocs, Layer.wrapTy, Layer.wrapDoc, liftsE, Layer.liftE]
+      rw [C04_env_optional std js cfg _ _ h.1, this]
+
+/-- WITNESS (defect in the unchanged code, key `env-tuple-length-of-unsplit-string`): `TupleParser.__call__` checks the
+element count on the value it is handed — under EnvWizard the *unsplit* string — so `tuple[str, int]` does not load
+the two items of `'a,5'` (3 characters ≠ 2 members), for any stdlib tables. -/
+theorem C04_env_fixed_tuple_witness (std : Std) (js : S → Option JVal) (cfg : Option MetaCfg) :
+    loadE std js cfg (.tuple [.str, .int]) (.str "a,5".toList) = .error (.parse none none) := by
+  simp [loadE, jLen, acceptsNone, parserContains, JVal.kind, parseE]
+
+/-- PARTIAL: when the string happens to have as many characters as the tuple has members, the items are converted
+member by member (here: two members, no member accepting None). -/
+theorem C04_env_fixed_tuple_partial (std : Std) (js : S → Option JVal) (cfg : Option MetaCfg) (t1 t2 : Ty) (s : S)
+    (hlen : s.length = 2) (hj : looksJson '[' s = false)
+    (h1 : acceptsNone t1 = false) (h2 : acceptsNone t2 = false) :
+    loadE std js cfg (.tuple [t1, t2]) (.str s) =
+      (loadZipE std js cfg [t1, t2] ((commaItems s).map JVal.str) >>= fun ys => pure (.tuple ys)) := by
+  simp [loadE, jLen, hlen, h1, h2, envAsList, hj, jIter, bind, Except.bind, pure, Except.pure]
 
 end DW.Props.C04
